@@ -40,7 +40,7 @@ def fill_line(vals, forward, limit):
     return out if forward else out[::-1]
 
 
-VARIANTS = ('float_one_block', 'float_split', 'mixed_int_str', 'object_none', 'datetime_nat')
+VARIANTS = ('float_one_block', 'float_split', 'mixed_int_str', 'object_none', 'datetime_nat', 'float_pairs', 'int_pair_mid')
 
 
 def build_variant(variant, mask):
@@ -48,9 +48,16 @@ def build_variant(variant, mask):
     r, c = mask.shape
     cols = []
     for j in range(c):
-        if variant in ('float_one_block', 'float_split'):
+        if variant in ('float_one_block', 'float_split', 'float_pairs'):
             a = (np.arange(r) * 10.0 + j + 1)
             a[mask[:, j]] = np.nan
+        elif variant == 'int_pair_mid':
+            # columns 1 and 2 form a never-missing 2-D int block between float blocks
+            if j in (1, 2):
+                a = np.arange(r) * 10 + j + 1
+            else:
+                a = (np.arange(r) * 10.0 + j + 1)
+                a[mask[:, j]] = np.nan
         elif variant == 'mixed_int_str':
             # column 1 is a never-missing int column, column 3 a never-missing str column (when present)
             if j == 1:
@@ -72,6 +79,9 @@ def build_variant(variant, mask):
         blocks = [np.column_stack(cols)] if c else []
     elif variant == 'float_split':
         blocks = [np.array(x) for x in cols]
+    elif variant == 'float_pairs':
+        # 2-D blocks of width 2 (a block without a missing cell then hands its edge column to the next block)
+        blocks = [np.column_stack(cols[k:k + 2]) if len(cols[k:k + 2]) == 2 else np.array(cols[k]) for k in range(0, c, 2)]
     else:
         blocks = gen.layout_consolidated(cols)
     return cols, blocks
@@ -302,7 +312,20 @@ def check_random(case):
         else:
             obs.expect_series(r, il, [sum(1 for j in range(m) if not miss[j][i]) for i in range(n)], 'count(1)')
     else:
-        raise Discard('series-only op')
+        # directional fill on a generated block layout (the enumeration covers fixed layouts only)
+        axis, forward, limit = case['axis'], case['forward'], case['limit']
+        name = 'fillna_forward' if forward else 'fillna_backward'
+        r = lib(lambda: getattr(f, name)(limit, axis=axis))
+        if isinstance(r, Raised):
+            raise Failure('raised:%s' % r.cls, 'Frame.%s(limit=%d, axis=%d) raised %r' % (name, limit, axis, r.exc), r.where)
+        if axis == 0:
+            want = [fill_line(model[j], forward, limit) for j in range(m)]
+        else:
+            rows = [fill_line([model[j][i] for j in range(m)], forward, limit) for i in range(n)]
+            want = [[rows[i][j] for i in range(n)] for j in range(m)]
+        obs.LOOSE_MISSING[0] = True
+        obs.expect_frame(r, il, cl, want, 'Frame.%s(limit=%d, axis=%d)' % (name, limit, axis))
+        classes.append('dirframe:axis%d' % axis)
     return {'nt': anym, 'cls': classes}
 
 
